@@ -20,7 +20,7 @@ func init() {
 			"R15.3 no printer path replays the same token field twice, and the replay method writes each element once; " +
 			"R15.4 every buffer write of the replay method is reachable only with PrettyPrint true, and LeadingComments is read in ast/compiler/debug only as the argument of the replay method; " +
 			"R15.5 a replay that wrote anything ends by forcing a pending line break, and the pending buffer is cleared only by the flush, by WriteNewline (which re-establishes one) and by the replay method itself; " +
-			"R15.6 the trivia skipper resets the list on entry, appends one empty element per line break in whitespace and one element per `//` comment consisting of exactly the bytes it advanced over; every token constructor copies the list; " +
+			"R15.6 the trivia skipper resets the list on entry, appends one empty element per line break in whitespace and one element per `//` comment consisting of exactly the bytes it advanced over — on every path behind a scanned comment (a comment ended by the end of the input included) the append is passed before the skipper goes round again or returns; every token constructor copies the list; " +
 			"R15.7 a reading of the output buffer's emptiness (which suppresses the separator in front of a replayed entry) is never branched on after something was written since it was taken. " +
 			"Textual equality/placement in the output is not compared.",
 		notDecided: []string{"textual equality and relative placement of comments in the output", "blank-line preservation as a count", "indentation of replayed comments"},
@@ -739,6 +739,167 @@ func ruleCommentCollection(c *Ctx) {
 	if n < 2 {
 		c.bad("skipper: appends", sk.Pos(), "expected an append for line breaks and one for comments, found %d", n)
 	}
+	// every scanned comment is kept: from the point where a comment's text is complete — the exit of the loop that
+	// runs to the line end, or the return of the helper that produced the text — every path passes the append before
+	// the skipper goes round again or returns (a comment ended by the end of the input is a comment too)
+	for _, skf := range lf.skipperFns() {
+		cxs := lf.contextsOf(skf)
+		na := 0
+		allInstrs(skf, func(ab *ssa.BasicBlock, _ int, in ssa.Instruction) {
+			st, ok := in.(*ssa.Store)
+			if !ok {
+				return
+			}
+			if _, ok := isFieldAddr(st.Addr, buf); !ok {
+				return
+			}
+			app, ok := isBuiltinCall(st.Val, "append")
+			if !ok {
+				return
+			}
+			el, ok := sliceLitElems(app.Call.Args[1])
+			if !ok || len(el) != 1 {
+				return
+			}
+			if _, isK := el[0].(*ssa.Const); isK {
+				return
+			}
+			na++
+			key := fmt.Sprintf("%s: comment append #%d is passed on every path behind the comment", skf.Name(), na)
+			// origins
+			type origin struct {
+				blk   *ssa.BasicBlock
+				after ssa.Instruction // nil: from the block's start
+			}
+			var origins []origin
+			var hc *ssa.Call
+			switch x := el[0].(type) {
+			case *ssa.Call:
+				hc = x
+			case *ssa.Extract:
+				hc, _ = x.Tuple.(*ssa.Call)
+			}
+			if hc != nil && hc.Call.StaticCallee() != nil && lf.isSkipperFn(hc.Call.StaticCallee()) && hc.Parent() == skf {
+				origins = append(origins, origin{hc.Block(), hc})
+			} else {
+				// exits of a loop of this function that leave with the byte under the cursor in {'\n', 0}
+				for _, h := range skf.Blocks {
+					isHeader := false
+					for _, p := range h.Preds {
+						if h.Dominates(p) {
+							isHeader = true
+						}
+					}
+					if !isHeader {
+						continue
+					}
+					body := naturalLoop(h)
+					for _, b := range skf.Blocks {
+						if !body[b] {
+							continue // not in the loop
+						}
+						iff := blockIf(b)
+						if iff == nil {
+							continue
+						}
+						for i, succ := range b.Succs {
+							if body[succ] {
+								continue // stays in the loop
+							}
+							lineEnd := len(cxs) > 0
+							for _, cx := range cxs {
+								es := cx.in[b]
+								if es == nil || !es.live {
+									lineEnd = false
+									continue
+								}
+								e2 := es.clone()
+								for _, bi := range b.Instrs {
+									lf.transfer(cx, e2, bi)
+								}
+								if !lf.refine(e2, cx, iff.Cond, i == 0) {
+									continue // edge not taken in this context
+								}
+								if e2.cur.minus(setOf('\n', 0)).empty() && !e2.cur.empty() {
+									continue
+								}
+								lineEnd = false
+							}
+							if lineEnd {
+								origins = append(origins, origin{succ, nil})
+							}
+						}
+					}
+				}
+			}
+			if len(origins) == 0 {
+				c.unres(key, st.Pos(), "the point where the comment's text is complete was not found (a loop left at the line end, or a helper call that yields the text)")
+				return
+			}
+			bad := ""
+			for _, o := range origins {
+				seen := map[*ssa.BasicBlock]bool{}
+				var walk func(b *ssa.BasicBlock, from ssa.Instruction)
+				walk = func(b *ssa.BasicBlock, from ssa.Instruction) {
+					if bad != "" {
+						return
+					}
+					started := from == nil
+					for _, bi := range b.Instrs {
+						if !started {
+							if bi == from {
+								started = true
+							}
+							continue
+						}
+						if bi == ssa.Instruction(st) {
+							return // the append is passed
+						}
+						if _, isRet := bi.(*ssa.Return); isRet {
+							bad = fmt.Sprintf("a return at %s is reached", c.pos(bi.Pos()))
+							return
+						}
+					}
+					for _, succ := range b.Succs {
+						if succ.Dominates(o.blk) && succ != o.blk {
+							bad = "the skipper's loop goes round again"
+							return
+						}
+						if seen[succ] {
+							continue
+						}
+						seen[succ] = true
+						walk(succ, nil)
+					}
+				}
+				walk(o.blk, o.after)
+			}
+			c.check(bad == "", key, st.Pos(), fmt.Sprintf("%d origin(s); every path from there passes the append", len(origins)), "behind a scanned comment "+bad+" without the comment having been appended to the trivia list: the comment is read and thrown away (for instance a comment that ends at the end of the input instead of at a line break)")
+		})
+	}
+}
+
+// naturalLoop: the blocks of the natural loop with header h (h plus everything that reaches a latch without passing h).
+func naturalLoop(h *ssa.BasicBlock) map[*ssa.BasicBlock]bool {
+	body := map[*ssa.BasicBlock]bool{h: true}
+	var work []*ssa.BasicBlock
+	for _, p := range h.Preds {
+		if h.Dominates(p) && !body[p] {
+			body[p] = true
+			work = append(work, p)
+		}
+	}
+	for len(work) > 0 {
+		b := work[len(work)-1]
+		work = work[:len(work)-1]
+		for _, p := range b.Preds {
+			if !body[p] {
+				body[p] = true
+				work = append(work, p)
+			}
+		}
+	}
+	return body
 }
 
 // commentElementOK: v = [strings.TrimRight](builder.String()) where every WriteByte(builder, x) writes the current byte
